@@ -195,7 +195,7 @@ class Ctx:
             c["samples"] = ["(no sample recorded)"]
         ev = dict(property_id=self.prop, tier=self.tier, seed=self.seed, level=self.level, coverage=c,
                   assumptions=self.assumptions, wall_s=round(time.time() - self.t0, 1), violations=len(self.violations))
-        evdir = os.path.join(VERIF, "evidence") if not ALT_REPO else os.path.join(self.scratch, "evidence")
+        evdir = os.path.join(VERIF, "evidence") if not (ALT_REPO or not getattr(self, "keep_evidence", True)) else os.path.join(self.scratch, "evidence")
         os.makedirs(evdir, exist_ok=True)
         with open(os.path.join(evdir, self.prop + ".json"), "w") as f:
             json.dump(ev, f, indent=1, default=str)
